@@ -7,6 +7,7 @@ mod sim;
 mod hist;
 mod adl;
 mod rtx;
+mod xw;
 mod c01;
 mod c05;
 mod c07;
